@@ -12,7 +12,7 @@ theorem Res.pre_pre (a b : List Msg) (r : Res) : Res.pre a (Res.pre b r) = Res.p
 /-- what a `coap_read_session` call may do, relative to `R0` = what S makes of everything from here on -/
 def SessPost (mode : Mode) (accept : Bytes) (X : Bytes) (R0 : Res) (av : Bytes) : List Msg × Sess × Bytes → Prop
   | (ms, .open st', av') =>
-      (∃ a', WsInv mode st' a' ∧ Clean mode accept a' (av' ++ X) ∧
+      (∃ a', WsInv mode st' a' ∧
         R0 = Res.pre ms (specFrom mode accept a' (av' ++ X))) ∧
       av'.length ≤ av.length ∧ (av ≠ [] → av'.length < av.length)
   | (ms, .closed, _) => R0.msgs = ms ∧ R0.closed = true
@@ -34,7 +34,7 @@ theorem SessPost_of_fr (mode : Mode) (accept : Bytes) (X : Bytes) (R0 : Res) (c 
     simp only [SessFr] at h
     simp only [SessPost]
     obtain ⟨⟨p', hi, hf⟩, hp1, hp2⟩ := h
-    refine ⟨⟨.fr p', hi, trivial, ?_⟩, by omega, ?_⟩
+    refine ⟨⟨.fr p', hi, ?_⟩, by omega, ?_⟩
     · rw [hR, frRes_eq, hf]
       simp only [specFrom, frRes_eq, Res.pre]
     · intro hne
@@ -43,7 +43,7 @@ theorem SessPost_of_fr (mode : Mode) (accept : Bytes) (X : Bytes) (R0 : Res) (c 
       · have := hp2 hc h1; omega
 
 theorem readSession_spec (mode : Mode) (accept : Bytes) (X : Bytes) (st : St) (av : Bytes) (a : Abs)
-    (hinv : WsInv mode st a) (hclean : Clean mode accept a (av ++ X)) :
+    (hinv : WsInv mode st a) :
     SessPost mode accept X (specFrom mode accept a (av ++ X)) av
       (readSession mode accept (av.length + fsCap + 2) st av) := by
   cases a with
@@ -53,7 +53,7 @@ theorem readSession_spec (mode : Mode) (accept : Bytes) (X : Bytes) (st : St) (a
   | hs s l =>
     obtain ⟨hhs, hseen, hhdr⟩ := hinv
     subst hseen hhdr
-    have hspec := rdHttpHeader_spec mode accept X (av.length + 2) st av hhs (by omega) hclean
+    have hspec := rdHttpHeader_spec mode accept X (av.length + 2) st av hhs (by omega)
     simp only [specFrom]
     generalize hrr : rdHttpHeader mode accept (av.length + 2) st av = rr at hspec
     have hfu : av.length + fsCap + 2 = (av.length + fsCap + 1) + 1 := rfl
@@ -76,7 +76,7 @@ theorem readSession_spec (mode : Mode) (accept : Bytes) (X : Bytes) (st : St) (a
           simp only [wsRead, hhs.1, hrr, Bool.not_false, if_true, hup', Bool.not_true, Bool.false_eq_true, if_false, h0]
           simp only [SessPost]
           have hnil : st'.rdHeader = [] := List.length_eq_zero_iff.mp h0
-          refine ⟨⟨.fr [], Or.inl ⟨by rw [← hnil]; exact hpre, trivial⟩, trivial, ?_⟩, by omega, fun _ => hav⟩
+          refine ⟨⟨.fr [], Or.inl ⟨by rw [← hnil]; exact hpre, trivial⟩, ?_⟩, by omega, fun _ => hav⟩
           rw [hR, hnil]; rfl
         · have hw : wsRead mode accept rxBuf st av = readFrame mode rxBuf (av'.length + fsCap + 2) st' av' := by
             simp only [wsRead, hhs.1, hrr, Bool.not_false, if_true, hup', Bool.not_true, Bool.false_eq_true, if_false, h0]
@@ -86,41 +86,40 @@ theorem readSession_spec (mode : Mode) (accept : Bytes) (X : Bytes) (st : St) (a
             (readSession_fr mode accept X (av.length + fsCap + 1)) st av st'.rdHeader av' _ hpost (by omega)
           exact SessPost_of_fr mode accept X _ _ st'.rdHeader av av' _ this hR (by omega) (fun _ => Or.inl hav)
       · have hup'' : st'.up = false := by cases h : st'.up <;> simp_all
-        obtain ⟨hav, hinv', hclean', hR⟩ := hdown hup''
+        obtain ⟨hav, hinv', hR⟩ := hdown hup''
         rw [hfu, readSession]
         simp only [wsRead, hhs.1, hrr, Bool.not_false, if_true, hup'']
         simp only [SessPost]
         subst hav
-        refine ⟨⟨.hs st'.seen st'.httpHdr, ⟨hinv', rfl, rfl⟩, ?_, ?_⟩, Nat.zero_le _, fun hne => List.length_pos_iff.mpr hne⟩
-        · simpa [Clean] using hclean'
-        · rw [hR]; simp [specFrom, Res.pre_nil]
+        refine ⟨⟨.hs st'.seen st'.httpHdr, ⟨hinv', rfl, rfl⟩, ?_⟩, Nat.zero_le _, fun hne => List.length_pos_iff.mpr hne⟩
+        rw [hR]; simp [specFrom, Res.pre_nil]
 
 /-! ### the event loop on one chunk -/
 
 def ChunkPost (mode : Mode) (accept : Bytes) (X : Bytes) (R0 : Res) : List Msg × Sess × Bool → Prop
   | (ms, .open st', stuck) =>
-      stuck = false ∧ ∃ a', WsInv mode st' a' ∧ Clean mode accept a' X ∧ R0 = Res.pre ms (specFrom mode accept a' X)
+      stuck = false ∧ ∃ a', WsInv mode st' a' ∧ R0 = Res.pre ms (specFrom mode accept a' X)
   | (ms, .closed, _) => R0.msgs = ms ∧ R0.closed = true
   | (_, .oob, _) => False
 
 theorem feedChunk_spec (mode : Mode) (accept : Bytes) (X : Bytes) : ∀ (fuel idle : Nat) (st : St) (av : Bytes) (a : Abs),
-    WsInv mode st a → Clean mode accept a (av ++ X) → av.length < fuel →
+    WsInv mode st a → av.length < fuel →
     ChunkPost mode accept X (specFrom mode accept a (av ++ X)) (feedChunk mode accept fuel idle st av) := by
   intro fuel
   induction fuel with
-  | zero => intro _ _ av _ _ _ h; omega
+  | zero => intro _ _ av _ _ h; omega
   | succ fuel ih =>
-    intro idle st av a hinv hclean hfuel
+    intro idle st av a hinv hfuel
     rw [feedChunk]
     by_cases h0 : av.length = 0
     · rw [if_pos h0]
       have hnil : av = [] := List.length_eq_zero_iff.mp h0
       subst hnil
       simp only [ChunkPost]
-      exact ⟨trivial, a, hinv, hclean, rfl⟩
+      exact ⟨trivial, a, hinv, rfl⟩
     · rw [if_neg h0]
       have hne : av ≠ [] := fun h => h0 (by rw [h]; rfl)
-      have hs := readSession_spec mode accept X st av a hinv hclean
+      have hs := readSession_spec mode accept X st av a hinv
       generalize readSession mode accept (av.length + fsCap + 2) st av = res at hs
       obtain ⟨ms, sess, av'⟩ := res
       cases sess with
@@ -128,11 +127,11 @@ theorem feedChunk_spec (mode : Mode) (accept : Bytes) (X : Bytes) : ∀ (fuel id
       | closed => simp only [SessPost] at hs; simp only [ChunkPost]; exact hs
       | «open» st' =>
         simp only [SessPost] at hs
-        obtain ⟨⟨a', hi, hc, hR⟩, _, hlt⟩ := hs
+        obtain ⟨⟨a', hi, hR⟩, _, hlt⟩ := hs
         have hlt' := hlt hne
         have hneq : ¬ av'.length = av.length := by omega
         simp only [if_neg hneq]
-        have hr := ih 0 st' av' a' hi hc (by omega)
+        have hr := ih 0 st' av' a' hi (by omega)
         generalize feedChunk mode accept fuel 0 st' av' = r at hr
         obtain ⟨ms2, sess2, stuck⟩ := r
         cases sess2 with
@@ -143,8 +142,8 @@ theorem feedChunk_spec (mode : Mode) (accept : Bytes) (X : Bytes) : ∀ (fuel id
           simp only [Res.pre, hr.1, hr.2, and_self]
         | «open» st'' =>
           simp only [ChunkPost] at hr ⊢
-          obtain ⟨hst, a'', hi2, hc2, hR2⟩ := hr
-          exact ⟨hst, a'', hi2, hc2, by rw [hR, hR2, Res.pre_pre]⟩
+          obtain ⟨hst, a'', hi2, hR2⟩ := hr
+          exact ⟨hst, a'', hi2, by rw [hR, hR2, Res.pre_pre]⟩
 
 /-! ### the whole sequence of chunks -/
 
@@ -186,18 +185,18 @@ def FeedPost (mode : Mode) (R0 : Res) : List Msg × Sess × Bool → Prop
   | (_, .oob, _) => False
 
 theorem feed_spec (mode : Mode) (accept : Bytes) : ∀ (chunks : List Bytes) (st : St) (a : Abs),
-    WsInv mode st a → Clean mode accept a chunks.flatten →
+    WsInv mode st a →
     FeedPost mode (specFrom mode accept a chunks.flatten) (feed mode accept st chunks) := by
   intro chunks
   induction chunks with
   | nil =>
-    intro st a hinv _
+    intro st a hinv
     simp only [feed, List.flatten_nil, FeedPost]
     exact ⟨trivial, ⟨a, hinv⟩, specFrom_pend mode accept st a hinv⟩
   | cons c cs ih =>
-    intro st a hinv hclean
-    rw [List.flatten_cons] at hclean ⊢
-    have hc := feedChunk_spec mode accept cs.flatten (6 * (c.length + 1)) 0 st c a hinv hclean (by omega)
+    intro st a hinv
+    rw [List.flatten_cons]
+    have hc := feedChunk_spec mode accept cs.flatten (6 * (c.length + 1)) 0 st c a hinv (by omega)
     rw [feed]
     generalize feedChunk mode accept (6 * (c.length + 1)) 0 st c = r at hc
     obtain ⟨ms, sess, stuck⟩ := r
@@ -206,10 +205,10 @@ theorem feed_spec (mode : Mode) (accept : Bytes) : ∀ (chunks : List Bytes) (st
     | closed => simp only [ChunkPost] at hc; simp only [FeedPost]; exact hc
     | «open» st' =>
       simp only [ChunkPost] at hc
-      obtain ⟨hst, a', hi, hcl, hR⟩ := hc
+      obtain ⟨hst, a', hi, hR⟩ := hc
       subst hst
       simp only
-      have hr := ih st' a' hi hcl
+      have hr := ih st' a' hi
       generalize feed mode accept st' cs = r2 at hr
       obtain ⟨ms2, sess2, stuck2⟩ := r2
       cases sess2 with
